@@ -82,3 +82,9 @@ CHECKS["C07"] = {
          "write (die after) up to the 10th (14th) of the run is taken as the crash point; restart over the surviving storage and provider contents through the real engine; convergence, no "
          "lost user content, no conflict artefacts for one-sided histories, no duplication.",
  "technique": "bounded exhaustive exploration; operations, crash kind and crash index are z3 integer choices enumerated by solver-decided branching over the real engine with a crash-injecting storage/provider wrapper and restart"}
+CHECKS["C10"] = {
+ "text": "Exhaustive bounded exploration with symbolic fault placement (M2): for every 1-operation history, a fault of each of 4 kinds at every provider-API call index 1..30 (thorough: two "
+         "faults) while every step runs through the real Runnable.run iteration and notifications through the real NotificationManager; nothing escapes, the matching notification is "
+         "delivered, the sides converge afterwards without losing user content; a persistently failing file (locked / invalid name) is reported, does not block a healthy file and is "
+         "synchronised after the failure is lifted.",
+ "technique": "bounded exhaustive exploration; operation, fault call indices and kinds are z3 integer choices enumerated by solver-decided branching over the real engine and service loops with a fault-injecting provider wrapper"}
